@@ -232,20 +232,20 @@ def check_c06(tier):
 
 # ------------------------------------------------------------------------------------------- C07
 
-def check_c07(tier):
-    V = C.Verdict("C07", tier, "model_checking")
-    cfg = "History_c07_quick.cfg" if tier == "quick" else "History_c07_thorough.cfg"
+def mk_universe2(root):
+    return R.Universe({"c0": root + "/R/conftest.py", "c1": root + "/R/a/conftest.py", "m": root + "/R/a/sharedm.py",
+                       "d": root + "/R/a/based.py", "t0": root + "/R/test_t0.py", "t1": root + "/R/a/test_t1.py"})
+
+
+def c07_family(V, cfg, mk_uni, start_scanned, tag):
+    """one History.tla configuration: every history ending in a query on a long-lived real database (warm) and on a
+    cold twin that received only the state-changing events; files exist on disk"""
     meta = C.run_tlc("History", cfg, workers=12, timeout=7200)
     if not meta["ok"]:
         raise C.ToolError("TLC on History/%s failed: %s" % (cfg, meta["errors"]))
-    cfg_scan = cfg.replace("c07_", "c07scan_")
-    meta_scan = C.run_tlc("History", cfg_scan, workers=12, timeout=7200)
-    if not meta_scan["ok"]:
-        raise C.ToolError("TLC on History/%s failed: %s" % (cfg_scan, meta_scan["errors"]))
-    C.build_harness()
-    root = os.path.join(C.BUILD, "ws", "c07-%d" % os.getpid())
+    root = os.path.join(C.BUILD, "ws", "c07%s-%d" % (tag, os.getpid()))
     shutil.rmtree(root, ignore_errors=True)
-    uni = mk_universe(root)
+    uni = mk_uni(root)
     table = versions_table(meta)
     vt = Versions(uni, table)
     disk = {}
@@ -263,6 +263,11 @@ def check_c07(tier):
 
     def ev_ops(ev, cur):
         t = ev["t"]
+        if t == "scan":
+            # the real scan_workspace over the on-disk tree (phase 1 in parallel, then the import phase)
+            return {"op": "scan", "root": root + "/R"}
+        if t == "cycles":
+            return {"op": "cycles"}
         p = uni.paths[ev["f"]]
         if t == "edit":
             if vt.valid(ev["f"], ev["v"]):
@@ -284,14 +289,8 @@ def check_c07(tier):
             return {"op": "evict", "paths": [p]}
         raise C.ToolError("unknown event %r" % ev)
 
-    def ev_ops_s(ev, cur):
-        if ev["t"] == "scan":
-            # the real scan_workspace over the on-disk tree (phase 1 in parallel, then the import phase)
-            return {"op": "scan", "root": root + "/R"}
-        return ev_ops(ev, cur)
-
-    def gen(m, start_scanned, base):
-        for n, case in enumerate(C.tlc_cases(m)):
+    def gen():
+        for n, case in enumerate(C.tlc_cases(meta)):
             if case["kind"] != "query":
                 continue
             hist = case["hist"]
@@ -300,7 +299,7 @@ def check_c07(tier):
             ops = list(first)
             cur = dict(disk_r)
             for ev in hist:
-                ops.append(ev_ops_s(ev, cur))
+                ops.append(ev_ops(ev, cur))
             if any(o is None for o in ops):
                 continue   # a navigation query for a name the test file does not use right now
             n_main = len(ops)
@@ -309,16 +308,12 @@ def check_c07(tier):
             cur2 = dict(disk_r)
             for ev in hist[:-1]:
                 if ev["t"] in ("edit", "scan"):
-                    ops.append(ev_ops_s(ev, cur2))
-            ops.append(ev_ops_s(hist[-1], cur2))
+                    ops.append(ev_ops(ev, cur2))
+            ops.append(ev_ops(hist[-1], cur2))
             if any(o is None for o in ops):
                 continue
-            ctx[base + n] = (case, n_main, cur)
-            yield {"id": base + n, "ops": ops}
-
-    def gen_all():
-        yield from gen(meta, True, 0)
-        yield from gen(meta_scan, False, 10 ** 7)
+            ctx[n] = (case, n_main, cur)
+            yield {"id": n, "ops": ops}
 
     def norm(ev, ans, cur):
         if isinstance(ans, dict) and ("panic" in ans or "tool_error" in ans):
@@ -329,6 +324,9 @@ def check_c07(tier):
             return decode_def(uni, cur, ans)
         if ev["t"] == "imported":
             return sorted(ans)
+        if ev["t"] == "cycles":
+            # the NAMES lying on a reported cycle (what History.tla's ImplCycleNames denotes)
+            return sorted({n for c in ans for n in c["path"]}) if isinstance(ans, list) else ans
         return ans
 
     def model_ans(ev, a):
@@ -336,12 +334,12 @@ def check_c07(tier):
             return sorted((k, tuple(defid(v))) for k, v in a.items() if defid(v) is not None)
         if ev["t"] == "goto":
             return defid(a) and tuple(defid(a))
-        if ev["t"] == "imported":
+        if ev["t"] in ("imported", "cycles"):
             return sorted(a)
         return a
 
     replayed = 0
-    for res in C.run_harness(gen_all()):
+    for res in C.run_harness(gen()):
         case, n_main, cur = ctx.pop(res["id"])
         replayed += 1
         hist = case["hist"]
@@ -350,11 +348,11 @@ def check_c07(tier):
         cold = norm(ev, res["res"][-1], cur)
         V.count()
         if any(e["t"] not in ("edit", "scan") for e in hist[:-1]):
-            V.nontriv(json.dumps(hist))
+            V.nontriv(tag + json.dumps(hist))
         if warm == cold:
             continue
         m_warm, m_cold = model_ans(ev, case["impl"]), model_ans(ev, case["cold"])
-        ex = {"hist": hist, "warm": warm, "cold": cold, "model_warm": m_warm, "model_cold": m_cold,
+        ex = {"hist": hist, "warm": warm, "cold": cold, "model_warm": m_warm, "model_cold": m_cold, "configuration": cfg,
               "blame": case["blame"], "disk": {uni.paths[s]: disk_r[s].text for s in disk_r}}
         if json.dumps(warm) == json.dumps(m_warm) and json.dumps(cold) == json.dumps(m_cold):
             V.classify(case["blame"], ex, "a warm / closed / evicted server answers differently from a cold twin")
@@ -363,9 +361,23 @@ def check_c07(tier):
             V.violation(ex, "a warm / closed / evicted server answers differently from a cold twin (not predicted by the model)")
         if res["id"] % 8000 == 0:
             V.sample({"hist": hist})
+    shutil.rmtree(root, ignore_errors=True)
+    return meta, replayed
+
+
+def check_c07(tier):
+    V = C.Verdict("C07", tier, "model_checking")
+    C.build_harness()
+    fams = [("History_c07_%s.cfg" % tier, mk_universe, True, "main"),
+            ("History_c07scan_%s.cfg" % tier, mk_universe, False, "scan"),
+            ("History_c07chain_%s.cfg" % tier, mk_universe2, True, "chain")]
+    metas, replayed = [], 0
+    for cfg, mk, scanned, tag in fams:
+        m, n = c07_family(V, cfg, mk, scanned, tag)
+        metas.append(m)
+        replayed += n
     if not V.samples:
         V.sample({"note": "see rule"})
-    shutil.rmtree(root, ignore_errors=True)
     replayed += real_eviction(V, 2 if tier == "quick" else 12)
     if not os.environ.get("VERIF_REPLAY"):
         import lsphist
@@ -376,19 +388,21 @@ def check_c07(tier):
     n_ev = tracecheck.validate_random_histories(V, 150 if tier == "quick" else 3000, 14 if tier == "quick" else 18, "c07")
     V.count(n_ev)
     replayed += n_ev
-    cov = {"states": meta["distinct"] + meta_scan["distinct"], "transitions": meta["transitions"] + meta_scan["transitions"],
-           "traces_validated_against_impl": replayed, "scan_event_histories": meta_scan["distinct"],
-           "tlc": {"module": "History", "cfg": cfg + " + " + cfg_scan, "wall_s": meta["wall_s"], "cached": meta.get("cached", False)},
+    cov = {"states": sum(m["distinct"] for m in metas), "transitions": sum(m["transitions"] for m in metas),
+           "traces_validated_against_impl": replayed,
+           "tlc": [{"module": "History", "cfg": m["cfg"], "states": m["distinct"], "wall_s": m["wall_s"], "cached": m.get("cached", False)} for m in metas],
            "exhaustive": True}
     return V.finish(
         coverage_extra=cov,
         rule="TLC visits every interleaving (up to the bounds) of edits, cached queries (available fixtures, "
-             "resolution, imported-fixture lookup), closes and evictions of unmodified documents over files that "
+             "resolution, imported-fixture lookup, cycle detection), closes and evictions of unmodified documents over files that "
              "exist on disk, and checks WarmEqualsColdRepaired / RepairedHistoryEqualsR on the repaired model; every "
              "history ending in a query is executed on a real long-lived database and on a cold twin that received "
-             "only the edits; a second configuration starts UNSCANNED and makes the workspace scan (the real scan_workspace "
-             "over the on-disk tree) one event of the history, so documents are edited and queried before the scan reaches them; non-trivial = an earlier query/close/evict precedes the final query",
-        assumptions=["eviction is emulated for a chosen victim through the pub maps exactly as mod.rs:336-343 (the real trigger needs > 2000 files; exercised in the thorough tier)",
+             "only the edits.  Three configurations: the conftest/helper/test universe (incl. mutually importing modules and "
+             "same-named fixtures with / without a dependency cycle); the same universe starting UNSCANNED with the workspace scan "
+             "(the real scan_workspace over the on-disk tree) as one event of the history; a conftest CHAIN whose two conftests "
+             "share a re-exporting module.  non-trivial = an earlier query/close/evict precedes the final query",
+        assumptions=["eviction is emulated for a chosen victim through the pub maps exactly as mod.rs:336-343; the pressure-driven trigger (> 2000 cached files) is provoked for real in a separate step",
                      "close/evict only of documents whose buffer equals the disk content (the statement's 'unmodified document')"])
 
 
